@@ -8,7 +8,7 @@ renumbering for refinement, for the WL partition and for hop distances (C10's mo
 Equivariance of the remaining algorithms of the property is evaluated on the implementation by the harness
 (f(P A Pᵀ) = P f(A)), and proved per model in the property files of C04, C06, C11, C13, C14 where available.
 -/
-import SkNet.Lemmas.WL
+import SkNet.Lemmas.WLEquiv
 import SkNet.Properties.C10
 
 namespace SkNet.C02
@@ -66,24 +66,6 @@ example : WFAdj [[1, 4], [0, 2, 4], [1, 3], [2, 4], [0, 1, 3]] := wfAdj_of_check
 
 /-! ## renumbering -/
 
-/-- `π` and `πinv` are inverse bijections of `{0..n-1}` -/
-structure IsPerm (n : Nat) (π πinv : Nat → Nat) : Prop where
-  lt : ∀ i, i < n → π i < n
-  lt_inv : ∀ i, i < n → πinv i < n
-  left : ∀ i, i < n → πinv (π i) = i
-  right : ∀ i, i < n → π (πinv i) = i
-
-/-- the adjacency lists of the renumbered graph: new node `π u` has the neighbours `π w`, `w ∈ adj u` -/
-def relabelAdj (π πinv : Nat → Nat) (adj : List (List Nat)) : List (List Nat) :=
-  tab adj.length fun i => (adj.getD (πinv i) []).map π
-
-theorem nbrs_relabel {n : Nat} {π πinv : Nat → Nat} (hp : IsPerm n π πinv) (adj : List (List Nat))
-    (hn : adj.length = n) (u : Nat) (hu : u < n) :
-    nbrs (relabelAdj π πinv adj) (π u) = (nbrs adj u).map π := by
-  unfold nbrs relabelAdj
-  rw [tab_getD]
-  simp [hn, hp.lt u hu, hp.left u hu]
-
 /-- **refinement is equivariant**: renumbering the nodes renumbers the refinement classes of every round. -/
 theorem refinement_equivariant {n : Nat} {π πinv : Nat → Nat} (hp : IsPerm n π πinv) (adj : List (List Nat))
     (hn : adj.length = n) (hwf : WFAdj adj) :
@@ -123,16 +105,6 @@ theorem refinement_equivariant {n : Nat} {π πinv : Nat → Nat} (hp : IsPerm n
       rw [← hcount (πinv w') hw _ hwu, ← hcount (πinv w') hw _ hwv, hp.right w' hw'n] at this
       exact this
 
-theorem wfAdj_relabel {n : Nat} {π πinv : Nat → Nat} (hp : IsPerm n π πinv) (adj : List (List Nat))
-    (hn : adj.length = n) (hwf : WFAdj adj) : WFAdj (relabelAdj π πinv adj) := by
-  intro u hu w hw
-  have hlen : (relabelAdj π πinv adj).length = n := by simp [relabelAdj, hn]
-  rw [hlen] at hu ⊢
-  have hu' : u = π (πinv u) := (hp.right u hu).symm
-  rw [hu', nbrs_relabel hp adj hn (πinv u) (hp.lt_inv u hu)] at hw
-  obtain ⟨x, hx, rfl⟩ := List.mem_map.1 hw
-  exact hp.lt x (hn ▸ hwf (πinv u) (hn ▸ hp.lt_inv u hu) x hx)
-
 /-- **wl_partition_equivariant**. The Weisfeiler-Lehman colouring of a renumbered graph groups the
 renumbered nodes exactly as the colouring of the original graph groups the original nodes. -/
 theorem wl_partition_equivariant {H : Type} {ops : HashOps H} (hx : ExactOps ops) {n : Nat} {π πinv : Nat → Nat}
@@ -148,6 +120,104 @@ theorem wl_partition_equivariant {H : Type} {ops : HashOps H} (hx : ExactOps ops
   constructor
   · intro h k; rw [← refinement_equivariant hp adj hn hwf k u v hu hv]; exact h k
   · intro h k; rw [refinement_equivariant hp adj hn hwf k u v hu hv]; exact h k
+
+/-- **wl_equivariant**. Renumbering the nodes renumbers the Weisfeiler-Lehman colours — the colour numbers
+themselves, for any `max_iter`: the colour of `π u` in the renumbered graph is the colour of `u` in the graph.
+(Colours are canonical: they are handed out in sorted order of a key that does not mention node numbers.) -/
+theorem wl_equivariant {H : Type} {ops : HashOps H} (hx : ExactOps ops) {n : Nat} {π πinv : Nat → Nat}
+    (hp : IsPerm n π πinv) (adj : List (List Nat)) (hn : adj.length = n) (hwf : WFAdj adj)
+    (maxIter : Option Nat) (u : Nat) (hu : u < n) :
+    (colorWL ops (relabelAdj π πinv adj) maxIter).getD (π u) 0 = (colorWL ops adj maxIter).getD u 0 := by
+  unfold colorWL
+  simp only [relabelAdj_length, hn]
+  have h := coloring_equivariant hx hp adj hn hwf
+    (match maxIter with | none => n | some m => if m > n then n else m) 0
+    (tab n fun _ => 0) (tab n fun _ => 0) true
+    (hn ▸ wlInv_zero adj) (by have := wlInv_zero (relabelAdj π πinv adj); rwa [relabelAdj_length, hn] at this)
+    (corr_zero n π hp.lt)
+  exact h.1 u hu
+
+/-- the edge counts compared by `are_isomorphic` agree for a renumbered copy -/
+theorem nnz_relabel {n : Nat} {π πinv : Nat → Nat} (hp : IsPerm n π πinv) (adj : List (List Nat))
+    (hn : adj.length = n) : nnz (relabelAdj π πinv adj) = nnz adj := by
+  unfold nnz
+  have e1 : (relabelAdj π πinv adj).map List.length = tab n (fun i => (adj.getD (πinv i) []).length) := by
+    simp [relabelAdj, tab, hn, List.map_map, Function.comp_def]
+  have e2 : adj.map List.length = tab n (fun i => (adj.getD i []).length) := by
+    apply List.ext_getElem?
+    intro i
+    rw [tab_getElem?, List.getElem?_map]
+    by_cases hi : i < n
+    · rw [List.getElem?_eq_getElem (hn ▸ hi)]
+      simp [hi, List.getD_eq_getElem?_getD, List.getElem?_eq_getElem (hn ▸ hi)]
+    · rw [List.getElem?_eq_none (by omega)]; simp [hi]
+  rw [e1, e2]
+  have hperm : (tab n fun i => (adj.getD (πinv i) []).length).Perm (tab n fun i => (adj.getD i []).length) :=
+    tab_perm_of_perm hp _ _ (fun w hw => by rw [hp.left w hw])
+  exact hperm.foldl_eq' (fun x _ y _ z => by omega) 0
+
+/-- **areIsomorphic_relabel**. The Weisfeiler-Lehman test never declares a graph non-isomorphic to a
+renumbered copy of itself (nor fails on it): for every graph, every renumbering, every `max_iter`,
+`are_isomorphic(G, πG)` returns `True`. -/
+theorem areIsomorphic_relabel {H : Type} {ops : HashOps H} (hx : ExactOps ops) {n : Nat} {π πinv : Nat → Nat}
+    (hp : IsPerm n π πinv) (adj : List (List Nat)) (hn : adj.length = n) (hwf : WFAdj adj)
+    (maxIter : Option Nat) :
+    areIsomorphic ops adj (relabelAdj π πinv adj) maxIter = some true := by
+  unfold areIsomorphic
+  have hl : (adj.length != (relabelAdj π πinv adj).length) = false := by simp [relabelAdj_length]
+  have hz : (nnz adj != nnz (relabelAdj π πinv adj)) = false := by simp [nnz_relabel hp adj hn]
+  simp only [hl, hz, Bool.or_self, Bool.false_eq_true, if_false]
+  -- the loop keeps the two colourings in correspondence, so the histograms agree at every step
+  have hloop : ∀ (m k : Nat) (L L' : List Nat) (c : Bool), WLInv adj k L →
+      WLInv (relabelAdj π πinv adj) k L' → Corr n π L L' → L.length = n → L'.length = n →
+      isoLoop ops adj (relabelAdj π πinv adj) m L L' c c = some true := by
+    intro m
+    induction m with
+    | zero => intro k L L' c _ _ _ _ _; rfl
+    | succ m ih =>
+      intro k L L' c inv inv' hc hL hL'
+      unfold isoLoop
+      cases c with
+      | false => rfl
+      | true =>
+        simp only [Bool.or_self, if_true]
+        obtain ⟨h1, h2, k', i1, i2⟩ := coloring_equivariant hx hp adj hn hwf 1 k L L' true inv inv' hc
+        have hlen1 : (coloring ops adj 1 L true).1.length = n := by rw [i1.len, hn]
+        have hlen2 : (coloring ops (relabelAdj π πinv adj) 1 L' true).1.length = n := by
+          rw [i2.len, relabelAdj_length, hn]
+        -- the two colour lists are permutations of each other
+        have hperm : (coloring ops (relabelAdj π πinv adj) 1 L' true).1.Perm (coloring ops adj 1 L true).1 := by
+          have t1 : (coloring ops adj 1 L true).1 = tab n fun i => (coloring ops adj 1 L true).1.getD i 0 := by
+            apply List.ext_getElem?
+            intro i
+            rw [tab_getElem?]
+            by_cases hi : i < n
+            · simp [hi, List.getD_eq_getElem?_getD, List.getElem?_eq_getElem (hlen1 ▸ hi)]
+            · rw [List.getElem?_eq_none (by omega)]; simp [hi]
+          have t2 : (coloring ops (relabelAdj π πinv adj) 1 L' true).1
+              = tab n fun i => (coloring ops (relabelAdj π πinv adj) 1 L' true).1.getD i 0 := by
+            apply List.ext_getElem?
+            intro i
+            rw [tab_getElem?]
+            by_cases hi : i < n
+            · simp [hi, List.getD_eq_getElem?_getD, List.getElem?_eq_getElem (hlen2 ▸ hi)]
+            · rw [List.getElem?_eq_none (by omega)]; simp [hi]
+          rw [t1, t2]
+          exact tab_perm_of_perm hp _ _ h1
+        have hcounts := counts_perm hperm
+        rw [h2]
+        simp only [hcounts, bne_self_eq_false, Bool.false_eq_true, if_false]
+        exact ih k' _ _ _ i1 i2 h1 hlen1 hlen2
+  have := hloop (match maxIter with | none => adj.length | some m => if m > adj.length then adj.length else m) 0
+    (tab adj.length fun _ => 0) (tab adj.length fun _ => 0) true (wlInv_zero adj)
+    (by have := wlInv_zero (relabelAdj π πinv adj); rwa [relabelAdj_length] at this)
+    (hn ▸ corr_zero n π hp.lt) (by simp [hn]) (by simp [hn])
+  exact this
+
+/-- Non-vacuity: the house graph and its copy renumbered by the rotation u ↦ u+1 mod 5. -/
+example : areIsomorphic exactOps [[1, 4], [0, 2, 4], [1, 3], [2, 4], [0, 1, 3]]
+    (relabelAdj (fun u => (u + 1) % 5) (fun u => (u + 4) % 5) [[1, 4], [0, 2, 4], [1, 3], [2, 4], [0, 1, 3]]) none
+    = some true := by decide
 
 /-! ## hop distances (model of C10) -/
 
